@@ -27,19 +27,20 @@ from harness.common.fetch_origin import Origin, ReadMeter, spec_body
 from harness.common.lean import b2j, j2s, s2j
 
 PROPERTY = "C31"
-LEAN_MODULES = ["VgiVerif.Proofs.C31"]
+LEAN_MODULES = ["VgiVerif.Proofs.C31", "VgiVerif.Proofs.C31Url"]
 OBLIGATIONS: list[str] = [
     "VgiVerif.C31.C31_validated",
     "VgiVerif.C31.C31_redirects",
+    "VgiVerif.C31.C31_request",
     "VgiVerif.C31.C31_read",
     "VgiVerif.C31.C31_ranges",
     "VgiVerif.C31.C31_reassembly",
     "VgiVerif.C31.C31_decoded",
-    "VgiVerif.C31.C31_exact_single",
+    "VgiVerif.C31.C31_exact",
     "VgiVerif.C31.C31_exact_parallel",
+    "VgiVerif.C31.C31_lying_probe",
     "VgiVerif.C31.C31_redact",
     "VgiVerif.C31.C31_redact_all",
-    "VgiVerif.C31.C31_trace",
 ]
 TRUSTED = [
     "aiohttp / asyncio / the socket layer: a response is (status, headers, body stream); one client-level disconnect = two wire-level "
